@@ -38,7 +38,15 @@ pub enum Corrupt {
     /// of wrong type, 15 unknown code page id, 16 section size 0, 17 duplicate id
     Prop { kind: u8, which: u8 },
     Clsid(u8),
+    /// give a stream another raw container name, spelled with code units at
+    /// the boundaries of the name-packing ranges (`NAME_UNITS`)
+    Rename { stream: u16, units: Vec<u8> },
 }
+
+/// Code units raw stream names are spelled from: both ends of the two packing
+/// ranges (0x3800..0x4800 two digits, 0x4800..0x4840 one digit), the table
+/// prefix 0x4840 and its neighbours, the property-set prefix, plain letters.
+pub const NAME_UNITS: [u16; 16] = [0x0005, 0x0041, 0x0061, 0x005f, 0x37ff, 0x3800, 0x3801, 0x3fff, 0x47ff, 0x4800, 0x4801, 0x483f, 0x4840, 0x4841, 0x4842, 0xfffd];
 
 #[derive(Clone, Debug, Serialize, Deserialize, Hash, PartialEq, Eq)]
 pub struct Case {
@@ -164,6 +172,16 @@ pub fn build(case: &Case) -> Result<Vec<u8>, String> {
                 let n = &names[pick(*stream, names.len())];
                 streams.remove(n);
             }
+            Corrupt::Rename { stream, units } => {
+                let n = names[pick(*stream, names.len())].clone();
+                let new: String = units.iter().take(6).filter_map(|u| char::from_u32(NAME_UNITS[*u as usize % NAME_UNITS.len()] as u32)).collect();
+                let taken = |s: &str| streams.keys().chain(storages.iter()).any(|k| k.to_uppercase() == s.to_uppercase());
+                if !new.is_empty() && !taken(&new) {
+                    if let Some(b) = streams.remove(&n) {
+                        streams.insert(new, b);
+                    }
+                }
+            }
             Corrupt::ToStorage { stream } => {
                 let n = names[pick(*stream, names.len())].clone();
                 if streams.remove(&n).is_some() {
@@ -208,6 +226,9 @@ pub fn build(case: &Case) -> Result<Vec<u8>, String> {
                 if let Some(b) = streams.get_mut(fmt::SUMMARY_STREAM) {
                     let so = if b.len() >= 48 { u32::from_le_bytes([b[44], b[45], b[46], b[47]]) as usize } else { 48 };
                     let count = if so + 8 <= b.len() { u32::from_le_bytes([b[so + 4], b[so + 5], b[so + 6], b[so + 7]]) as usize } else { 0 };
+                    // (an earlier operator may have planted a huge count: only
+                    // the entries that fit in the stream are looked at)
+                    let count = count.min(b.len().saturating_sub(so + 8) / 8);
                     let entry = |i: usize| so + 8 + 8 * i;
                     let i = if count > 0 { (*which as usize) % count } else { 0 };
                     let value_at = |b: &Vec<u8>, i: usize| -> usize {
@@ -481,7 +502,7 @@ fn decode_corrupt(c: &[u8]) -> Corrupt {
             v
         }
     };
-    match b(0) % 11 {
+    match b(0) % 12 {
         0 => Corrupt::Cell { table: w(1), row: w(3), col: w(5), kind: b(7) },
         1 => Corrupt::SetBytes { stream: w(1), offset: w(3), bytes: rest(5) },
         2 => Corrupt::Truncate { stream: w(1), keep: w(3) },
@@ -492,7 +513,8 @@ fn decode_corrupt(c: &[u8]) -> Corrupt {
         7 => Corrupt::PoolHeader(b(1)),
         8 => Corrupt::PoolEntry { index: w(1), kind: b(3) },
         9 => Corrupt::Prop { kind: b(1), which: b(2) },
-        _ => Corrupt::Clsid(b(1)),
+        10 => Corrupt::Clsid(b(1)),
+        _ => Corrupt::Rename { stream: w(1), units: rest(3) },
     }
 }
 
@@ -622,6 +644,7 @@ fn corrupt_strategy() -> impl Strategy<Value = Corrupt> {
         5 => (any::<u16>(), any::<u8>()).prop_map(|(index, kind)| Corrupt::PoolEntry { index, kind }),
         8 => (any::<u8>(), any::<u8>()).prop_map(|(kind, which)| Corrupt::Prop { kind, which }),
         1 => any::<u8>().prop_map(Corrupt::Clsid),
+        4 => (any::<u16>(), prop::collection::vec(any::<u8>(), 1..6)).prop_map(|(stream, units)| Corrupt::Rename { stream, units }),
     ]
 }
 
@@ -667,7 +690,7 @@ fn raw_strategy() -> impl Strategy<Value = RawCase> {
 pub fn run(ctx: &Ctx) -> Report {
     let mut rep = Report::new(
         "exploration",
-        "(1) valid databases from the independent encoder with 0..3 format-level corruption operators: any cell of any catalog or user table replaced (null, all ones, dangling reference, other string, raw zero pattern, high bit), stream bytes overwritten, streams truncated / extended / emptied / removed / replaced by a storage of the same name, pool header (unknown code page, flipped reference width), pool entries (length beyond the data, long-string escape, zero refcount with text, under-count, live empty entry, maximal refcount), property set (BOM, version, OS, reserved, FMTID, section offset, count, misaligned / out-of-bounds offsets, unknown type, LPSTR length huge / 0 / unterminated, FILETIME beyond year 9999, code page of wrong type / unknown id, section size 0, duplicate id), wrong root CLSID; (2) arbitrary bytes and byte-level edits / truncations of valid files. On each the battery runs: Package::open; if Ok every read operation (tables, columns, select and full iteration with Row indexing, inner and left joins of small tables, summary getters, stream listing and reading, signature query) and every mutating operation (insert / update / delete on every table with schema-derived values, create and drop table, stream write / remove, summary setters, code-page changes) followed by flush. Oracle: every call returns; panics (with location), more than a size-proportional budget of I/O calls, and a single allocation above 64 MiB + 16 x file size are violations. Non-trivial = the file passes the container layer (reaches MSI-level parsing); distinct by file hash. The thorough tier adds libFuzzer campaigns (fuzz/) and the FFI worker.",
+        "(1) valid databases from the independent encoder with 0..3 format-level corruption operators: any cell of any catalog or user table replaced (null, all ones, dangling reference, other string, raw zero pattern, high bit), stream bytes overwritten, streams truncated / extended / emptied / removed / replaced by a storage of the same name / renamed to raw names spelled with code units at the boundaries of the name-packing ranges, pool header (unknown code page, flipped reference width), pool entries (length beyond the data, long-string escape, zero refcount with text, under-count, live empty entry, maximal refcount), property set (BOM, version, OS, reserved, FMTID, section offset, count, misaligned / out-of-bounds offsets, unknown type, LPSTR length huge / 0 / unterminated, FILETIME beyond year 9999, code page of wrong type / unknown id, section size 0, duplicate id), wrong root CLSID; (2) arbitrary bytes and byte-level edits / truncations of valid files. On each the battery runs: Package::open; if Ok every read operation (tables, columns, select and full iteration with Row indexing, inner and left joins of small tables, summary getters, stream listing and reading, signature query) and every mutating operation (insert / update / delete on every table with schema-derived values, create and drop table, stream write / remove, summary setters, code-page changes) followed by flush. Oracle: every call returns; panics (with location), more than a size-proportional budget of I/O calls, and a single allocation above 64 MiB + 16 x file size are violations. Non-trivial = the file passes the container layer (reaches MSI-level parsing); distinct by file hash. The thorough tier adds libFuzzer campaigns (fuzz/) and the FFI worker.",
     );
     rep.assumptions.push("a pure CPU loop would surface as a watchdog exit 2, not as a violation".into());
     let mut st = Stats::new();
